@@ -1145,8 +1145,10 @@ func (m *Nitro) LoadFromDisk(dir string, concurr int, callb ItemCallback) (*Snap
 				for {
 					itm, err := r.ReadItem()
 					if err != nil {
+						// Record the error and go on to the next shard: the
+						// producer blocks until every shard has been taken.
 						errors[shard] = err
-						return
+						break loop
 					}
 
 					if itm == nil {
@@ -1235,7 +1237,7 @@ func (m *Nitro) LoadFromDisk(dir string, concurr int, callb ItemCallback) (*Snap
 						itm, err := r.ReadItem()
 						if err != nil {
 							errors[shard] = err
-							return
+							break loop
 						}
 
 						if itm == nil {
